@@ -49,6 +49,9 @@ type distCfg struct {
 	Mont  bool    `json:"mont,omitempty"`
 	// ViaIface: built through ring.NewSampler instead of the concrete constructor.
 	ViaIface bool   `json:"viaNewSampler,omitempty"`
+	// OverView k > 0: the sampler is constructed over the level view r.AtLevel(k-1) of the ring and then raised to
+	// the maximum level with AtLevel (a sampler's level is a property of the view, not of its constructor).
+	OverView int `json:"builtOverLevelPlus1,omitempty"`
 	Tag      string `json:"tag"`
 }
 
@@ -163,6 +166,10 @@ func cases(tier string, seed int64) []eng.Case {
 	addScript := func(i int, rc ringCfg, dc distCfg) {
 		n := steps()
 		id := fmt.Sprintf("script/%s/%s/m%v/logN%d/k%d/%d", dc.Kind, dc.Tag, dc.Mont, rc.LogN, len(rc.Moduli), i)
+		if i%3 == 2 && len(rc.Moduli) >= 2 {
+			dc.OverView = 1 + (i/3)%(len(rc.Moduli)-1)
+			id += fmt.Sprintf("/over-view-l%d", dc.OverView-1)
+		}
 		sc := scriptCase{Ring: rc, Dist: dc, Steps: n}
 		out = append(out, eng.Case{ID: id, Sig: "C17|" + dc.name(), Desc: sc, Run: func(c *eng.Ctx) { runScript(c, sc) }})
 	}
